@@ -124,8 +124,33 @@ pub fn finish(args: ReportArgs, m: MetaView, cases: &[Params], items: &[(usize, 
     std::fs::create_dir_all(format!("{}/replays", crate::root())).ok();
     let is_known = |label: &str| known.iter().any(|(st, m)| st == "open" && label.contains(m.as_str()));
     let mut replayed = 0u64;
+    let mut fallback_done: Vec<usize> = vec![];
     for (k, f) in failures.iter() {
         if f.inconclusive {
+            // the engine could not encode this case (e.g. a coefficient left the positional range).
+            // That is no verdict — but the same scenario case is run on the real suite with concrete
+            // values, and an obligation that fails there is a reproduced violation of the real code.
+            if !fallback_done.contains(k) && fallback_done.len() < 8 {
+                fallback_done.push(*k);
+                let (_, order, p) = &items[*k];
+                let seed = args.seed;
+                let (_checks, cf, suite) = real_run_on(order, &prop, p, seed, &[]);
+                replayed += 1;
+                if !cf.is_empty() && !cf.iter().any(|c| is_known(c)) && reported.iter().filter(|r| r.starts_with("VIOLATION")).count() < 5 {
+                    violations += 1;
+                    let path = format!("{}/replays/{prop}-{}.json", crate::root(), violations);
+                    let rj = json!({
+                        "property": prop, "order": order, "seed": seed, "params": p.to_json(), "case": results[*k].desc,
+                        "symbolic_failure": {"label": f.label, "detail": format!("engine could not encode the case ({}); the concrete run of the same case on the real suite fails", f.detail)},
+                        "model": [], "concrete_failures_on_real_suite": cf, "suite": suite,
+                        "replay_cmd": format!("./check {prop} --replay {path}"),
+                    });
+                    std::fs::write(&path, serde_json::to_string_pretty(&rj).unwrap()).ok();
+                    reported.push(format!("VIOLATION property={prop} replay={path}"));
+                    reported.push(format!("  engine inconclusive ({}: {}), concrete run of the same case on {suite} fails: {}", f.label, f.detail, cf.join("; ")));
+                    continue;
+                }
+            }
             inconclusive += 1;
             if reported.len() < 10 {
                 reported.push(format!("INCONCLUSIVE property={prop} case={} {}: {}", results[*k].desc, f.label, f.detail));
